@@ -413,3 +413,13 @@ Proof.
   - intros e Hexp. apply (expire_removed c t p now e HE Hexp).
   - intros Hmax. rewrite maintain_strip. unfold maintain. cbn [strip with_topic c_expiry c_max]. rewrite Hmax. reflexivity.
 Qed.
+
+(* whatever survives a maintenance pass - by expiry, by size, or both - is an untouched segment of the partition or the fresh
+   empty segment that replaces a partition emptied completely: in every state, no invariant needed *)
+Lemma maintain_survivors c now p s :
+  In s (p_segs (maintain c now p)) -> In s (p_segs p) \/ exists st nw, s = seg_new st nw.
+Proof.
+  rewrite maintain_strip. intros H. destruct (maintain_in (strip c) now (expire c now p) s eq_refl H) as [H1 | H1]; [|right; exact H1].
+  unfold expire in H1. destruct (c_expiry c); [|left; exact H1].
+  destruct (filter (seg_expired c now) (p_segs p)) as [|v vs]; [left; exact H1|]. apply (remove_segs_in p (v :: vs) now s H1).
+Qed.
